@@ -14,10 +14,10 @@ res=REJECTED; why=""
 if git apply $patch >>$log 2>&1; then
   if cargo build --offline --all-features >>$log 2>&1; then
     if cargo test --workspace --offline --no-fail-fast >>$log 2>&1; then
-      cp $demo tests/seed_demo.rs
-      if cargo test --offline $fflag --test seed_demo >>$log 2>&1; then why="demo passes with change"; else
+      dn=${DEMONAME:-seed_demo}; cp $demo tests/$dn.rs
+      if cargo test --offline $fflag ${RELFLAG:-} --test $dn >>$log 2>&1; then why="demo passes with change"; else
         git checkout -- src
-        if cargo test --offline $fflag --test seed_demo >>$log 2>&1; then res=CONFIRMED; else why="demo fails on clean tree"; fi
+        if cargo test --offline $fflag ${RELFLAG:-} --test $dn >>$log 2>&1; then res=CONFIRMED; else why="demo fails on clean tree"; fi
       fi
     else why="existing suite fails with change"; fi
   else why="build fails"; fi
